@@ -610,6 +610,9 @@ func (e *Exec) concrete(st *State, t *term.Term) uint64 {
 	if v, ok := st.conc[t.ID]; ok {
 		return v
 	}
+	if v, ok := e.pinnedConst(st, t); ok {
+		return v
+	}
 	panic(&concretizeReq{t})
 }
 
@@ -996,3 +999,26 @@ func (e *Exec) Report() map[string]interface{} {
 
 var _ = token.NoPos
 var _ = strings.Join
+
+// pinnedConst evaluates t when every variable in it is pinned by the path condition.
+func (e *Exec) pinnedConst(st *State, t *term.Term) (uint64, bool) {
+	if t.IsConst() {
+		return t.Val, true
+	}
+	if len(st.pinned) == 0 {
+		return 0, false
+	}
+	for _, v := range e.ts.VarIDs(t) {
+		if _, ok := st.pinned[v]; !ok {
+			return 0, false
+		}
+	}
+	if st.pinModel == nil {
+		vals := make(map[string]uint64, len(st.pinName))
+		for k, v := range st.pinName {
+			vals[k] = v
+		}
+		st.pinModel = term.NewModel(vals)
+	}
+	return e.ts.Eval(t, st.pinModel), true
+}
